@@ -261,7 +261,7 @@ class _HookThread(threading.Thread):
     def join(self, timeout=None):
         super().join(timeout)
         cb = getattr(SCRIPT, 'after_drain', None) if SCRIPT is not None else None
-        if cb is not None and threading.current_thread() is threading.main_thread():
+        if cb is not None and not self.is_alive() and threading.current_thread() is threading.main_thread():
             SCRIPT.after_drain = None
             cb()
 
